@@ -129,6 +129,9 @@ def crash_signature(prop, exc, tb=None):
     frames = traceback.extract_tb(tb if tb is not None else exc.__traceback__)
     where, site = 'harness', '?'
     for fr in frames:
+        if not os.path.isabs(fr.filename):
+            # e.g. Cython frames ('pyfftw/pyfftw.pyx'): neither odl nor verif
+            continue
         fn = os.path.abspath(fr.filename)
         if fn.startswith(os.path.join(root, 'odl') + os.sep):
             where = 'odl'
